@@ -463,7 +463,8 @@ def read_real(text):
         return 'err ' + type(e).__name__
     if not isinstance(r, ReactionContainer):
         return 'mol'
-    return repr([[mol_skeleton(m) for m in role] for role in (r.reactants, r.reagents, r.products)])
+    # the order of molecules inside a role is not fixed by the property: compared as a multiset
+    return repr([sorted(mol_skeleton(m) for m in role) for role in (r.reactants, r.reagents, r.products)])
 
 
 def read_model(line):
@@ -482,7 +483,7 @@ def read_model(line):
             role.append(''.join(chr(int(c)) for c in xs[i + 1:i + 1 + n]))
             i += 1 + n
         roles.append(role)
-    return repr([[str_skeleton(t) for t in role] for role in roles])
+    return repr([sorted(str_skeleton(t) for t in role) for role in roles])
 
 
 def gen_read_text(rng):
@@ -759,22 +760,31 @@ def oracle_roundtrip(mols):
 # property-level oracle on the real code (never consults the Lean model)
 # ------------------------------------------------------------------------------------------------
 
-def oracle_compose(R, P, rng=None):
-    """Ground truth: the CGR of merged sides R, P marks exactly the differences. Returns (signature, what) or None."""
-    r, p = build(R, rng, labels=False), build(P, rng, labels=False)
+def oracle_compose(R, P, rng=None, cgr=None):
+    """Ground truth: the CGR of merged sides R, P marks exactly the differences. Returns (signature, what) or None.
+    `cgr=(h,)`: check this already computed graph (None = the computation raised ValueError)."""
     common = set(R.atoms) & set(P.atoms)
-    if any(R.atoms[n][0] != P.atoms[n][0] or R.atoms[n][1] != P.atoms[n][1] for n in common):
+    clash = any(R.atoms[n][0] != P.atoms[n][0] or R.atoms[n][1] != P.atoms[n][1] for n in common)
+    if cgr is not None:
+        h = cgr[0]
+        if clash:
+            return None if h is None else ('C15/compose/clash-accepted', 'sides with different element/isotope on a mapped atom were composed')
+        if h is None:
+            return 'C15/compose/raises/ValueError', 'reaction compose raised ValueError on consistent sides'
+    else:
+        r, p = build(R, rng, labels=False), build(P, rng, labels=False)
+        if clash:
+            try:
+                r ^ p
+            except ValueError:
+                return None
+            except Exception as e:
+                return 'C15/compose/clash-wrong-exception', f'element/isotope clash raised {type(e).__name__}'
+            return 'C15/compose/clash-accepted', 'sides with different element/isotope on a mapped atom were composed'
         try:
-            r ^ p
-        except ValueError:
-            return None
+            h = r ^ p
         except Exception as e:
-            return 'C15/compose/clash-wrong-exception', f'element/isotope clash raised {type(e).__name__}'
-        return 'C15/compose/clash-accepted', 'sides with different element/isotope on a mapped atom were composed'
-    try:
-        h = r ^ p
-    except Exception as e:
-        return 'C15/compose/raises/' + type(e).__name__, f'compose raised {type(e).__name__}: {e}'
+            return 'C15/compose/raises/' + type(e).__name__, f'compose raised {type(e).__name__}: {e}'
     if set(h._atoms) != set(R.atoms) | set(P.atoms):
         return 'C15/compose/atom-set', f'CGR atoms {sorted(h._atoms)} != union of sides'
     centre = set()
@@ -811,6 +821,66 @@ def oracle_compose(R, P, rng=None):
     return None
 
 
+def oracle_rxn_compose(rs, ags, ps, rng=None):
+    """~reaction for role lists with pairwise different atom numbers inside a side: the CGR of (reagents + reactants)
+    against products; reagents are unchanged molecules."""
+    from chython import ReactionContainer
+    R, P = Raw(), Raw()
+    for x in ags + rs:
+        R = R.merged(x)
+    for x in ps:
+        P = P.merged(x)
+    mols = [[build(x, rng) for x in role] for role in (rs, ags, ps)]
+    try:
+        h = ReactionContainer(mols[0], mols[2], mols[1]).compose()
+    except ValueError:
+        h = None
+    return oracle_compose(R, P, rng, cgr=(h,))
+
+
+def oracle_tokens():
+    """The CGR signature must tell apart every pair of different (order, p_order), (charge, p_charge), radical states and
+    must show '>' exactly where the two sides differ — on two-atom / one-atom condensed graphs (finite, exhaustive)."""
+    seen = {}
+    orders = (None, 1, 2, 3, 4, 8)
+    for o in orders:
+        for p in orders:
+            if o is None and p is None:
+                continue
+            R = Raw({1: [6, None, 0, False], 2: [6, None, 0, False]}, {(1, 2): o} if o else {})
+            P = Raw({1: [6, None, 0, False], 2: [6, None, 0, False]}, {(1, 2): p} if p else {})
+            try:
+                s = str(build(R, labels=False) ^ build(P, labels=False))
+            except Exception as e:
+                return ('C15/cgr-string/raises/' + type(e).__name__, f'bond {o}>{p}: {type(e).__name__}: {e}',
+                        {'kind': 'compose', 'R': raw_json(R), 'P': raw_json(P)})
+            if ('>' in s) != (o != p):
+                return ('C15/cgr-string/bond-mark', f'bond orders {o}>{p} written as {s!r}',
+                        {'kind': 'token-pair', 'a': [raw_json(R), raw_json(P)], 'b': None})
+            if s in seen:
+                return ('C15/cgr-string/collision', f'bond orders {seen[s][2]} and {(o, p)} have the same CGR signature {s!r}',
+                        {'kind': 'token-pair', 'a': [raw_json(seen[s][0]), raw_json(seen[s][1])], 'b': [raw_json(R), raw_json(P)]})
+            seen[s] = (R, P, (o, p))
+    seen = {}
+    for c in range(-4, 5):
+        for pc in range(-4, 5):
+            for r, pr in ((False, False), (True, False), (False, True), (True, True)):
+                R, P = Raw({1: [6, None, c, r]}), Raw({1: [6, None, pc, pr]})
+                try:
+                    s = str(build(R, labels=False) ^ build(P, labels=False))
+                except Exception as e:
+                    return ('C15/cgr-string/raises/' + type(e).__name__, f'atom {c}>{pc} {r}>{pr}: {type(e).__name__}: {e}',
+                            {'kind': 'compose', 'R': raw_json(R), 'P': raw_json(P)})
+                if ('>' in s) != (c != pc or r != pr):
+                    return ('C15/cgr-string/atom-mark', f'charge {c}>{pc}, radical {r}>{pr} written as {s!r}',
+                            {'kind': 'token-pair', 'a': [raw_json(R), raw_json(P)], 'b': None})
+                if s in seen:
+                    return ('C15/cgr-string/collision', f'atom states {seen[s][2]} and {(c, pc, r, pr)} have the same CGR signature {s!r}',
+                            {'kind': 'token-pair', 'a': [raw_json(seen[s][0]), raw_json(seen[s][1])], 'b': [raw_json(R), raw_json(P)]})
+                seen[s] = (R, P, (c, pc, r, pr))
+    return None
+
+
 def raw_json(x):
     return {'atoms': {str(n): [a[0], a[1], a[2], bool(a[3])] for n, a in x.atoms.items()},
             'bonds': [[a, b, o] for (a, b), o in x.bonds.items()]}
@@ -839,6 +909,10 @@ def search(ctx):
             if res:
                 ctx.fail(res[0], res[1], {'kind': 'read-partition', 'text': b[3]['text']})
                 return
+    res = oracle_tokens()
+    if res:
+        ctx.fail(res[0], res[1], res[2])
+        return
     n = 0
     while time.time() < t_end:
         g = ordered[n] if n < len(ordered) else gen_reaction(rng, raws)
@@ -847,6 +921,18 @@ def search(ctx):
         if res:
             ctx.fail(res[0], res[1], {'kind': 'compose', 'R': raw_json(g['R']), 'P': raw_json(g['P'])})
             return
+        # ReactionContainer.compose on role lists (reagents numbered apart: no remapping involved)
+        rs, ps = split_roles(rng, g['R']), split_roles(rng, g['P'])
+        ags, nxt = [], g['next'] + 1
+        for _ in range(rng.choice((0, 1, 1, 2))):
+            m = rng.choice(small)
+            ags.append(m.renamed({k: nxt + j for j, k in enumerate(m.atoms)}))
+            nxt += len(m.atoms)
+        if rs or ps or ags:
+            res = oracle_rxn_compose(rs, ags, ps, rng)
+            if res:
+                ctx.fail(res[0], res[1], {'kind': 'rxn-compose', 'roles': [[raw_json(x) for x in role] for role in (rs, ags, ps)]})
+                return
         ids = sorted(set(g['R'].atoms) | set(g['P'].atoms))
         if ids:
             f = dict(zip(ids, rng.sample(range(1, 3 * len(ids) + 5), len(ids))))
@@ -929,7 +1015,7 @@ def oracle_read_text(text):
                 out.append('.'.join(role[x - i] for x in g))
             elif k not in member:
                 out.append(fr)
-        expected.append([str_skeleton(t) for t in out])
+        expected.append(sorted(str_skeleton(t) for t in out))
         i += len(role)
     if not any(expected):
         return None
@@ -937,7 +1023,7 @@ def oracle_read_text(text):
         r = smiles(text)
     except Exception as e:
         return 'C15/read/raises/' + type(e).__name__, f'smiles({text!r}) raised {type(e).__name__}: {e}'
-    got = [[mol_skeleton(m) for m in role] for role in (r.reactants, r.reagents, r.products)]
+    got = [sorted(mol_skeleton(m) for m in role) for role in (r.reactants, r.reagents, r.products)]
     if got != expected:
         return 'C15/read/partition', f'smiles({text!r}) has role skeletons {got}, the text denotes {expected}'
     return None
@@ -957,6 +1043,13 @@ def probe(inp):
         except Exception as e:
             return True, f'str(~reaction) raised {type(e).__name__}: {e}'
         return False, f'str(~reaction) = {s}'
+    if kind == 'rxn-compose':
+        roles = [[raw_from_json(x) for x in role] for role in inp['roles']]
+        res = oracle_rxn_compose(*roles)
+        return (True, f'{res[0]}: {res[1]}') if res else (False, 'CGR of the reaction marks exactly the differences; reagents unchanged')
+    if kind == 'token-pair':
+        res = oracle_tokens()
+        return (True, f'{res[0]}: {res[1]}') if res else (False, 'all bond/atom states have distinct CGR signatures with > exactly on change')
     if kind == 'renumber':
         res = oracle_renumber(raw_from_json(inp['R']), raw_from_json(inp['P']), {int(k): v for k, v in inp['map'].items()})
         if res and res[0] != 'inherited':
